@@ -186,7 +186,8 @@ def units(tier):
     M = "vf.props.c02"
     ranges = [(2 ** e2, 2 ** (e2 + 1)) for e2 in range(0, 31)]
     ranges += [(2 ** 31, 2767045208), (2767045207, 4102444800)]   # top binade, cut where the FILETIME value crosses 2^57
-    return [Unit("a.attributes", M, "attributes", {}, 900), Unit("c.writeall_dispatch", M, "writeall_dispatch", {}, 600)] + [
+    return [Unit("a.attributes", M, "attributes", {}, 900), Unit("c.writeall_dispatch", M, "writeall_dispatch", {}, 600),
+            Unit("e.link_text_kept", M, "link_text_kept", {}, 900)] + [
         Unit("d.metadata_applied[%s]" % k, M, "metadata_applied", dict(kind=k), 900) for k in ("f", "e", "d", "fl", "dl")] + [
         Unit("b.mtime_roundtrip[%d..%d]" % (a, b), M, "mtime_roundtrip", dict(lo=a, hi=b), 900) for (a, b) in ranges]
 
@@ -349,6 +350,119 @@ def replay_metadata(kind, perm, filetime, defined):
             return True, "mtime %r extracted as %r" % (want_mtime, st.st_mtime)
         return False, "mode %o and mtime preserved" % got
     finally:
+        shutil.rmtree(d, ignore_errors=True)
+
+
+# ---------------------------------------------------------------- e. the text stored for a symbolic link
+LINK_PATHS = ["lnk", "a/lnk", "a/b/lnk"]
+LINK_TEXTS = ["0b", "a/0b", "../0b", "b/0b", "./0b", "a/b/0b"]   # relative links only (C02 quantifies over those)
+ORIGINS = ["0b", "a/0b", "a/b/0b", "/abs/top/0b"]
+
+
+def link_text_kept():
+    """Worker._find_link_target: a RELATIVE link keeps its text whatever else is in the archive (the target it names is
+    relative to the link's own directory, not to the working directory); an absolute one may become relative"""
+    import os
+
+    r = ObResult(bounds="link at one of %s with text one of %s (symbolic choices); members archived before it: every subset of "
+                        "%s (given as paths relative to the working directory, as writeall('.') does)" % (LINK_PATHS, LINK_TEXTS, ORIGINS))
+    eng = Engine([PZ, HP], intmode="int")
+    lp, lt = eng.sym_int("link_path", 3), eng.sym_int("link_text", 3)
+    present = [z3.Bool("member%d_archived_before" % i) for i in range(len(ORIGINS))]
+
+    class P(Native):
+        import pathlib as _pl
+
+        isa = (_pl.Path,)
+
+        def __init__(self, s_):
+            self.s = s_
+
+        def as_posix(self, e):
+            return self.s
+
+    def pick(e, v, tbl):
+        e.assume(e.compare(ast.Lt(), v, len(tbl)))
+        for k in range(len(tbl) - 1):
+            if e.branch(e.compare(ast.Eq(), v, k)):
+                return tbl[k]
+        return tbl[-1]
+
+    def harness(e):
+        path, text = pick(e, lp, LINK_PATHS), pick(e, lt, LINK_TEXTS)
+        files = []
+        for i, o in enumerate(ORIGINS):
+            if e.branch(present[i]):
+                af = SObj(e.cls(PZ, "ArchiveFile"))
+                af.attrs["_file_info"] = {"origin": P(o)}
+                af.attrs["id"] = i
+                files.append(af)
+        files.append(SObj(e.cls(PZ, "ArchiveFile")))          # a member without a source path (writestr)
+        files[-1].attrs["_file_info"] = {"origin": None}
+        w = SObj(e.cls(PZ, "Worker"))
+        w.attrs["files"] = files
+        for mod in (PZ, HP):
+            e.overrides[(mod, "readlink")] = lambda e_, p_: text
+        return dict(path=path, text=text, got=e.method(w, "_find_link_target", P(path)))
+
+    def post(o):
+        text, got = o["text"], o["got"]
+        if not text.startswith("/"):
+            # (the writer normalises the spelling as pathlib does - "./0b" becomes "0b" - which names the same target)
+            from pathlib import PurePosixPath
+
+            return [got == PurePosixPath(text).as_posix()]
+        # an absolute text may be stored relative to the link's directory - naming the same location
+        here = os.path.dirname("/abs/top/" + o["path"])
+        return [got == text or os.path.normpath(os.path.join(here, got)) == os.path.normpath(text)]
+
+    decide(eng, harness, post, dict(link_path=lp, link_text=lt, **{"member%d_archived_before" % i: b for i, b in enumerate(present)}), r,
+           describe=lambda o: "%s -> %r stored as %r" % (o["path"], o["text"], o["got"]))
+    _cex(r, "link_text_kept", lambda w: dict(module="vf.props.c02", func="replay_link_text", kwargs=dict(
+        link_path=LINK_PATHS[min(int(w.get("link_path", 0)), len(LINK_PATHS) - 1)], link_text=LINK_TEXTS[min(int(w.get("link_text", 0)), len(LINK_TEXTS) - 1)],
+        origins=[o for i, o in enumerate(ORIGINS) if w.get("member%d_archived_before" % i)])), signature=lambda w: {"obligation": "link_text_kept"})
+    return r
+
+
+def replay_link_text(link_path, link_text, origins):
+    """the real thing: build the tree, archive it with writeall('.') from inside, extract, read the link back"""
+    import io
+    import os
+    import shutil
+    import tempfile
+
+    import py7zr
+
+    if link_text.startswith("/"):
+        return False, "absolute link texts are not replayed (they depend on where the scratch directory lies)"
+    d = tempfile.mkdtemp(prefix="vf_c02l_")
+    cwd = os.getcwd()
+    try:
+        top = os.path.join(d, "top")
+        os.makedirs(top)
+        for o in origins + ["a/0b", "a/b/0b", "0b", "a/b/b/0b", "a/b/a/0b", "b/0b", "a/a/0b"]:
+            if o.startswith("/"):
+                continue
+            os.makedirs(os.path.dirname(os.path.join(top, o)) or top, exist_ok=True)
+            if not os.path.exists(os.path.join(top, o)):
+                open(os.path.join(top, o), "w").write("content of " + o)
+        os.makedirs(os.path.dirname(os.path.join(top, link_path)) or top, exist_ok=True)
+        os.symlink(link_text, os.path.join(top, link_path))
+        os.chdir(top)
+        buf = io.BytesIO()
+        with py7zr.SevenZipFile(buf, "w", filters=[{"id": py7zr.FILTER_COPY}]) as z:
+            z.writeall(".")
+        os.chdir(cwd)
+        out = os.path.join(d, "out")
+        py7zr.SevenZipFile(io.BytesIO(buf.getvalue())).extractall(out)
+        got = os.readlink(os.path.join(out, link_path))
+        from pathlib import PurePosixPath
+
+        return got != PurePosixPath(link_text).as_posix(), "link %s -> %r comes back as %r" % (link_path, link_text, got)
+    except Exception as e:  # noqa
+        return False, "replay could not be set up: %r" % (e,)
+    finally:
+        os.chdir(cwd)
         shutil.rmtree(d, ignore_errors=True)
 
 
